@@ -71,7 +71,7 @@ Proof. vm_compute. eexists. eexists. repeat split. Qed.
 
 SPECS["C10"] = ("""property C10: a deletion request can never remove another author's events.
    Abstract store, any reachable state (AInv), any kind-5 request with any tag list.""",
-  DBIMP, [
+  DBIMP + "\nFrom Pocket Require Import DbIdInv DbIndexInv KeyOrder DbAddr DbQuerySound DbQueryComplete DbDeletion DbForeign.", [
   ("C10_victim_survives",
    "forall st r v, AInv st -> In v (live st) -> e_pk v <> e_pk r -> e_kind r = 5 -> In v (live (fst (a_store st r)))",
    "victim_survives", "whatever the request names, wherever the foreign target appears, accepted or refused"),
@@ -82,6 +82,9 @@ SPECS["C10"] = ("""property C10: a deletion request can never remove another aut
    "forall ops st, AInv st -> AInv (a_run ops st)", "a_run_inv", "AInv holds in every reachable state"),
   ("C10_refused_request_noop",
    "forall st e st' x, a_store st e = (st', Err x) -> st' = st", "a_store_err_noop", "a refused request (InvalidDelete at tag k) rolls back its earlier tags"),
+  ("C10_concrete_deletion_spares_other_authors",
+   "forall ops names ev s' off x, ops_wfe ops -> wf_ev ev -> e_kind ev = 5 ->\n    let s := c_run ops (db_init names) in\n    store_event s ev = (s', Ok off) ->\n    get_event_by_id s (e_id x) = Ok (Some x) -> e_pk x <> e_pk ev ->\n    get_event_by_id s' (e_id x) = Ok (Some x)",
+   "deletion_spares_other_authors", "the CONCRETE store, every reachable state, a deletion request with ANY tag list (e and a tags, malformed, repeated, of any author): every retrievable event of another author is still returned by id afterwards"),
   ], """Example C10_example :
   let a := repeat 2 32 in let b := repeat 4 32 in
   let v := mkE (repeat 1 32) a (repeat 3 64) 1 5 [] [] in
@@ -97,7 +100,7 @@ SPECS["C11"] = ("""property C11: accepted deletions are permanent; deletion time
    order, removals, vanishes).  Reopen/rebuild are identities on the abstract state (C16).
    Boundary: a request naming its OWN id (impossible for a correctly hashed event) marks the id
    while the request itself stays retrievable; such an event is then refused as duplicate.""",
-  DBIMP, [
+  DBIMP + "\nFrom Pocket Require Import DbIdInv DbIndexInv KeyOrder DbAddr DbQuerySound DbQueryComplete DbDeletion DbForeign.", [
   ("C11_time_monotone",
    "forall st ops a t, del_time (del_addrs st) a = Some t ->\n    exists t', del_time (del_addrs (a_run ops st)) a = Some t' /\\ t <= t'",
    "deletion_time_monotone", ""),
@@ -116,6 +119,15 @@ SPECS["C11"] = ("""property C11: accepted deletions are permanent; deletion time
   ("C11_newer_not_refused",
    "forall st e st', ~ In (e_id e) (del_ids st) -> covered st e = false -> a_store st e = (st', Err EDeleted) -> False",
    "newer_not_refused", "events newer than every accepted deletion of their address are never refused as deleted"),
+  ("C11_concrete_markers_only_grow",
+   "forall ops s, del_le (committed s) (committed (c_run ops s))",
+   "markers_only_grow", "the CONCRETE store, any state and any continuation: a deleted-id marker is never lost and no address deletion time ever decreases"),
+  ("C11_concrete_deleted_id_refused_forever",
+   "forall s id ops e, event_is_deleted s id = true -> e_id e = id -> let s' := c_run ops s in\n    event_is_deleted s' id = true /\\ (snd (store_event s' e) = Err EDup \\/ snd (store_event s' e) = Err EDeleted) /\\ fst (store_event s' e) = s'",
+   "deleted_id_refused_forever", ""),
+  ("C11_concrete_address_time_monotone",
+   "forall s a t ops, naddr_is_deleted_asof s a = Some t -> exists t', naddr_is_deleted_asof (c_run ops s) a = Some t' /\\ t <= t'",
+   "naddr_time_monotone", ""),
   ], """Example C11_example :
   let a := repeat 2 32 in
   let r1 := mkE (repeat 8 32) a (repeat 3 64) 5 500 [[[97]; [49;48;48;48;48;58] ++ write_hex a ++ [58]]] [] in
@@ -142,7 +154,7 @@ SPECS["C12"] = ("""property C12: a store call that fails changes nothing observa
   ], "")
 
 SPECS["C18"] = ("""property C18: explicit removal and vanish remove exactly their targets (abstract store).""",
-  DBIMP, [
+  DBIMP + "\nFrom Pocket Require Import DbIdInv DbIndexInv KeyOrder DbAddr DbQuerySound DbQueryComplete DbDeletion DbForeign.", [
   ("C18_remove_exact",
    "forall st id x, (In x (live (a_remove st id)) <-> In x (live st) /\\ e_id x <> id) /\\\n    del_ids (a_remove st id) = del_ids st /\\ del_addrs (a_remove st id) = del_addrs st /\\ a_extra (a_remove st id) = a_extra st",
    "remove_exact", "present, absent or already removed target"),
@@ -155,6 +167,9 @@ SPECS["C18"] = ("""property C18: explicit removal and vanish remove exactly thei
   ("C18_ephemeral_never_retrievable",
    "forall st e st', a_store st e = (st', Ok tt) -> is_ephemeral (e_kind e) = true -> live st' = live st /\\ ~ In e (live st')",
    "ephemeral_never_retrievable", ""),
+  ("C18_concrete_remove_exact",
+   "forall s id s', id_inv s -> remove_event s id = (s', Ok tt) ->\n    get_event_by_id s' id = Ok None /\\ has_event s' id = false /\\\n    (forall id', id' <> id -> get_event_by_id s' id' = get_event_by_id s id' /\\ has_event s' id' = has_event s id') /\\\n    t_delids (committed s') = t_delids (committed s) /\\ t_naddr (committed s') = t_naddr (committed s) /\\\n    t_extra (committed s') = t_extra (committed s) /\\ log s' = log s",
+   "remove_event_exact_concrete", "the CONCRETE store (id_inv holds in every reachable state): exactly the target leaves the id index; every other id, all markers, extra tables and the log are untouched"),
   ], """Example C18_example :
   let pk := repeat 2 32 in
   let gw := mkE (repeat 1 32) (repeat 4 32) (repeat 3 64) 1059 5 [[[112]; write_hex pk]] [] in
